@@ -82,7 +82,7 @@ def nested_memo_stale_possible(kind):
     return kind in MEMOIZED_COMPOSITES + ('ineq-derived',)
 
 
-def body_values(env, shape=(3,), kinds=KINDS, how=None, pressure=(0,), stats=False, attached=None):
+def body_values(env, shape=(3,), kinds=KINDS, how=None, pressure=(0,), stats=False, attached=None, second=False):
     """values replaced (update_components / update_values_from_data): every subset mask, statistic and derived value is that
     of a fresh dataset over the new values"""
     from glue.core import Data, DataCollection
@@ -128,6 +128,18 @@ def body_values(env, shape=(3,), kinds=KINDS, how=None, pressure=(0,), stats=Fal
     env.same(d['x'], xn, 'values of x after the change')
     if hw != 2:
         env.same(d['z'], xn * 2 + yn, 'derived values after the change')
+    if second and hw != 2:
+        # a second change after the memos were refilled by the evaluations above
+        x2, y2 = env.reals('xm', shape, nan=True), env.reals('ym', shape, lo=-9, hi=9)
+        hw2 = env.choice('how2', 2)
+        if hw2 == 0:
+            d.update_components({d.id['y']: y2})
+            xn, yn = xn, y2
+        else:
+            d.update_components({d.id['x']: x2, d.id['y']: y2})
+            xn, yn = x2, y2
+        env.same(ev(), defn(xn, yn), 'mask after a second change (%d): %s' % (hw2, tag))
+        env.same(d['z'], xn * 2 + yn, 'derived values after a second change')
     if not stats:
         return
     stat_state = st if not attach else sub.subset_state
@@ -356,6 +368,15 @@ def harnesses(tier):
     hs.append(Harness('values under cache pressure %s' % (shape,), body_values,
                       params=dict(shape=shape, kinds=['ineq', 'invert', 'range', 'or'], pressure=(130,), attached=1), validate=5, weight=6,
                       bounds=dict(shape=shape, kinds=['ineq', 'invert', 'range', 'or'], memoised_evaluations_before=260)))
+    if tier == 'thorough':
+        for hw in (0, 1):
+            for shp in ((3,), (2, 2)):
+                hs.append(Harness('values %s %s then a second change' % (shp, names[hw]), body_values,
+                                  params=dict(shape=shp, kinds=KINDS, how=hw, second=True), validate=15, weight=5, wall_s=1800,
+                                  bounds=dict(shape=shp, kinds=KINDS, changes=[names[hw], 'update_components (y | x and y)'], attached=[0, 1])))
+        hs.append(Harness('values under cache pressure (3,) all kinds', body_values,
+                          params=dict(shape=(3,), kinds=KINDS, pressure=(130, 300), attached=1), validate=5, weight=8, wall_s=1800,
+                          bounds=dict(shape=(3,), kinds=KINDS, memoised_evaluations_before=[260, 600])))
     hs.append(Harness('params %s' % (shape,), body_params, params=dict(shape=(3,)), validate=30, bounds=dict(shape=(3,), cases=9)))
     hs.append(Harness('links %s' % (shape,), body_links, params=dict(shape=(3,)), validate=30, bounds=dict(shape=(3,), changes=4)))
     hs.append(Harness('coordinates replaced', body_coords, validate=30, bounds=dict(image=(2, 3), table_rows=3, changes=['update_values_from_data', 'coords setter'])))
